@@ -58,6 +58,7 @@ func (m *Mutex) Unlock() {
 		panic("vsync: unlock of unlocked mutex")
 	}
 	m.locked = false
+	after("unlock")
 }
 
 // ---------------------------------------------------------------- RWMutex
@@ -89,6 +90,7 @@ func (m *RWMutex) Unlock() {
 	}
 	point(fmt.Sprintf("wunlock #%d", objID(m)), nil)
 	m.writer = false
+	after("wunlock")
 }
 func (m *RWMutex) RLock() {
 	if !controlled {
@@ -111,6 +113,7 @@ func (m *RWMutex) RUnlock() {
 	}
 	point(fmt.Sprintf("runlock #%d", objID(m)), nil)
 	m.readers--
+	after("runlock")
 }
 func (m *RWMutex) RLocker() Locker { return (*rlocker)(m) }
 
@@ -138,6 +141,9 @@ func (w *WaitGroup) Add(d int) {
 	w.n += d
 	if w.n < 0 {
 		panic("vsync: negative WaitGroup counter")
+	}
+	if d < 0 {
+		after("wgdone")
 	}
 }
 func (w *WaitGroup) Done() { w.Add(-1) }
@@ -272,6 +278,7 @@ func (c *Cond) Signal() {
 		c.waiters[0].signalled = true
 		c.waiters = c.waiters[1:]
 	}
+	after("signal")
 }
 
 func (c *Cond) Broadcast() {
@@ -287,6 +294,7 @@ func (c *Cond) Broadcast() {
 		w.signalled = true
 	}
 	c.waiters = nil
+	after("broadcast")
 }
 
 // ---------------------------------------------------------------- Chan
@@ -319,6 +327,7 @@ func (c *Chan[T]) Send(v T) {
 		panic("send on closed channel")
 	}
 	c.buf = append(c.buf, v)
+	after("send")
 }
 
 // Recv returns (value, ok) like `v, ok := <-c`.
@@ -355,6 +364,7 @@ func (c *Chan[T]) Close() {
 		panic("close of closed channel")
 	}
 	c.closed = true
+	after("close")
 }
 
 func (c *Chan[T]) Len() int {
